@@ -11,9 +11,11 @@ Open Scope N_scope.
 
 Theorem C15_inventory_covered : forallb classified gen_panic_sites = true.
 Proof. vm_compute. reflexivity. Qed.
+Print Assumptions C15_inventory_covered.
 
 Theorem C15_classification_current : forallb (still_present gen_panic_sites) classification = true.
 Proof. vm_compute. reflexivity. Qed.
+Print Assumptions C15_classification_current.
 
 (* the peer's ephemeral key (QR code on the reader, SessionEstablishment on the device): the
    conversion in front of ECDH never panics, whatever the COSE key *)
@@ -22,12 +24,15 @@ Theorem C15_peer_key_total : forall (valid : bytes -> bool) (dh : bytes -> bytes
 Proof.
   intros valid dh k. split; [apply encoded_point_total|]. destruct (bad_key_refused valid dh k) as [H _]. exact H.
 Qed.
+Print Assumptions C15_peer_key_total.
 
 (* response handling on the reader: device authentication never panics, whatever device key the
    (issuer-signed) MSO carries *)
 Theorem C15_device_authentication_total : forall env d, device_authentication env d <> DaPanic.
 Proof. exact device_no_panic. Qed.
+Print Assumptions C15_device_authentication_total.
 
 (* the Gallina CBOR decoder that mirrors ciborium is total: it answers for every fuel and input *)
 Theorem C15_decoder_total : forall bs, exists r, decode_first bs = r.
 Proof. intro bs. eexists. reflexivity. Qed.
+Print Assumptions C15_decoder_total.
